@@ -23,6 +23,7 @@ import ast
 from ..astutil import text, access_path, calls_in, func_params, is_const, const_value, stmts_of
 from ..loader import where, AnalysisError
 from ..paths import Enumerator
+from ..terms import PathEnv
 
 
 def is_obj_call(c):
@@ -357,14 +358,33 @@ def check_add_data(ctx, repo):
     fn = repo.method("SurrogateModel", "add_data")
     mod = repo.cls("SurrogateModel").module
     ps = func_params(fn)
-    apps = []
-    for s in stmts_of(fn):
-        if isinstance(s, ast.Expr) and isinstance(s.value, ast.Call) and isinstance(s.value.func, ast.Attribute) and s.value.func.attr == "append":
-            apps.append((access_path(s.value.func.value), access_path(s.value.args[0]) if s.value.args else None))
-    want = [(ps[0] + ".x_data", ps[1]), (ps[0] + ".y_data", ps[2])]
-    ok = sorted(apps) == sorted(want) and len(stmts_of(fn)) == 2
-    ctx.check3(True if ok else (False if apps else None), "R6", "SurrogateModel.add_data", where(mod, fn), "x appended to x_data and y to y_data, once each, unconditionally",
-               "appends found: %r (expected x -> x_data and y -> y_data, once each, unconditionally)" % (apps,), "add_data shape not recognised")
+    # on every normal path: exactly one append of x to x_data and one of y to y_data (values read through the path's bindings)
+    want = {ps[0] + ".x_data": ps[1], ps[0] + ".y_data": ps[2]}
+    state, apps = True, []
+    paths = [p for p in Enumerator(loop_counts=(0, 1)).function_paths(fn) if p.outcome != "raise"]
+    for p in paths:
+        pe = PathEnv(fn, p.events)
+        got = {}
+        for i_, e in enumerate(p.events):
+            if e.kind == "stmt" and isinstance(e.node, ast.Expr) and isinstance(e.node.value, ast.Call) and isinstance(e.node.value.func, ast.Attribute) \
+                    and e.node.value.func.attr in ("append", "extend", "insert") and e.node.value.args:
+                recv = access_path(pe.expand_at(e.node.value.func.value, i_))
+                arg = access_path(pe.expand_at(e.node.value.args[-1], i_))
+                if recv in want:
+                    got.setdefault(recv, []).append((e.node.value.func.attr, arg))
+                    apps.append((recv, arg))
+        for recv, arg in want.items():
+            g = got.get(recv, [])
+            if g == [("append", arg)]:
+                continue
+            if len(g) != 1 or g[0][0] != "append" or (g[0][1] in (ps[1], ps[2]) and g[0][1] != arg):
+                state = False       # conditional / repeated / swapped sample
+            elif state:
+                state = None
+    if not paths:
+        state = None
+    ctx.check3(state, "R6", "SurrogateModel.add_data", where(mod, fn), "x appended to x_data and y to y_data, once each, on every path",
+               "appends found: %r (expected x -> x_data and y -> y_data, once each, unconditionally)" % (sorted(set(apps)),), "add_data shape not recognised")
 
 
 def run(ctx):
